@@ -53,7 +53,7 @@ def known_entries():
 
 def check(ctx, build=None):
     if build is None:
-        build = C.ensure_built("C02", ["guards"], need_harness=False, extra_go=gomod.EXTRA_GO)
+        build = C.ensure_built("C02", ["guards", "translator", "printer"], need_harness=False, extra_go=gomod.EXTRA_GO)
     if not build.driver_ok:
         raise C.Infra("the Lean driver does not build; the interpreter is needed for C02")
     scratch = C.scratch()
@@ -194,7 +194,7 @@ def replay(ctx, path):
     entry = inp.get("entry")
     if not entry or inp.get("proto") not in ("k4-catalogue", "k4-lookalike"):
         return check(ctx)
-    C.ensure_built("C02", ["guards"], need_harness=False, extra_go=gomod.EXTRA_GO)
+    C.ensure_built("C02", ["guards", "translator", "printer"], need_harness=False, extra_go=gomod.EXTRA_GO)
     scratch = C.scratch()
     bad = []
     try:
